@@ -160,6 +160,12 @@ def fam_calls():
         ("call:inner-fn-writes-global-not-outer-param", "stel teller = 0; functie outer(teller) { functie bump(a, b) { teller = teller + 5; teller }; bump(1, 2) + teller }; [outer(%s), teller]" % H0),
         ("call:inner-fn-reads-global-not-outer-local", "stel g = %s; functie outer() { stel x = 1; stel g = 50; functie inner(p, q, r) { stel l = p + q + r; l + g }; inner(1, 2, 3) + g }; [outer(), g]" % H0),
         ("call:inner-fn-value-escapes", "stel n = 3; functie mk(n) { functie(x) { x * n } }; stel f = mk(%s); f(2)" % H0),
+        # a name declared with `functie` is an ordinary variable: assigning another function to it changes what a call runs
+        ("call:reassigned-named-fn", "functie f(a) { a + 1 }; stel r1 = f(%s); f = functie(a) { a * 2 }; [r1, f(%s)]" % (H0, H0)),
+        ("call:stub-then-replace-mutual", "functie oneven(n) { nee }; functie even(n) { als n == 0 { antwoord ja; }; oneven(n - 1) }; oneven = functie(n) { als n == 0 { antwoord nee; }; even(n - 1) }; [even(%s), oneven(%s), even(3)]" % (H0, H0)),
+        ("call:wrapped-named-fn", "functie prijs(n) { n * 10 }; stel oud = prijs; prijs = functie(n) { oud(n) + 1 }; [prijs(%s), oud(%s)]" % (H0, H0)),
+        ("call:reassigned-other-arity", "functie f(a) { a }; f = functie(a, b) { a - b }; f(%s, %s)" % (H0, H1)),
+        ("call:reassigned-in-fn", "functie f() { 1 }; functie zet() { f = functie() { 2 }; 0 }; stel a = f(); zet(); [a, f()]"),
         ("call:args-order", 'functie f(a, b, c) { a * 100 + b * 10 + c }; stel t = 0; functie n() { t = t + 1; t }; f(n(), n(), n())'),
         ("call:positional", "functie f(a, b, c, d) { [d, c, b, a] }; f(%s, %s, %s, 4)" % (H0, H1, H2)),
         ("call:locals-padded", "functie f(a) { stel b = a + 1; stel c = b + 1; stel d = c + 1; [a, b, c, d] }; f(%s)" % H0),
@@ -428,6 +434,11 @@ def fam_builtins():
         out.append(("blt:arity2:" + b, 'print("x"); %s(1, 2)' % b))
         out.append(("blt:of-fn:" + b, 'print("x"); %s(functie() { 1 })' % b))
         out.append(("blt:of-arr:" + b, 'print("x"); %s([1, 2])' % b))
+    out += [
+        ("blt:int-text-roundtrip-big", "stel n = 9007199254740993; stel m = 0 - 9007199254740995; [int(string(n)) == n, int(string(n)), int(string(m)) == m, int(string(m)), string(n)]"),
+        ("blt:int-text-roundtrip-ends", 'stel hi = 1152921504606846975; stel lo = 0 - hi - 1; [int(string(hi)) == hi, int(string(lo)) == lo, int("1152921504606846975"), int("-1152921504606846976"), string(lo)]'),
+        ("blt:int-text-roundtrip-mid", 'stel a = 1152921504606846974; stel b = 576460752303423489; [int(string(a)), int(string(b)), int("0"), int("-0"), int("007")]'),
+    ]
     # number -> text -> number on floats whose shortest spelling needs 16-17 significant digits (concrete values: the text of
     # a float is outside what the solver decides, DESIGN.md 4.3-5; the real interpreter must agree with the reference spelling)
     out += [
@@ -486,6 +497,8 @@ def fam_loop_bodies(max_len=2, contexts=("top", "fn")):
         "als i > 0 { acc += 1; als acc > %s { stop; } } anders als i == 0 { acc += 5; } anders { acc += 7; };" % H0,
         "l[i] = [acc, 0.5][0];",
         "EXIT",
+        "zolang nee { acc += 100; };",
+        "zolang ja { acc += 1; stop; };",
     ]
     out = []
     for ctx in contexts:
@@ -733,6 +746,11 @@ DIRECTED_SESSIONS = [
     ("globals-many-lines", ["stel a = %s" % H0, "stel b = a + 1", "a = b * 2; a", "stel c = [a, b]", "c[%s]" % H2, "a + b"]),
     ("redeclare-across-lines", ["stel a = 1", "stel a = %s + 1" % H1, "a", "{ stel a = 5; a }", "a"]),
     ("redeclare-fails-at-run-time", ["stel a = 1", "stel a = [1][%s]" % H2, "a"]),
+    # every line defines and calls its OWN function (calling a function of an earlier line is the known finding): function
+    # constants of different lines with the same entry offset / frame size but different parameter counts or bodies
+    ("fn-per-line-different-arity", ["stel f = functie(a) { stel t = a * 2; t }; f(%s)" % H0, "stel g = functie(a, b) { a + b }; g(1, %s)" % H1, "stel h = functie() { 7 }; h()"]),
+    ("fn-per-line-different-arity-rev", ["stel g = functie(a, b) { a + b }; g(1, %s)" % H1, "stel f = functie(a) { stel t = a * 2; t }; f(%s)" % H0]),
+    ("fn-per-line-same-shape", ["functie p(a) { a + 1 }; p(%s)" % H0, "functie q(a) { a + 2 }; q(%s)" % H0, "functie r(a, b) { a + b }; r(1, %s)" % H1, "functie s(a) { a + 1 }; s(%s)" % H1]),
     ("heap-constant-reuse", ['stel s = "abc"', 'stel t = "abc"; t[0] = "x"; t', "s", '"abc"', "1.5", "1.5 + 1.5"]),
 ]
 
